@@ -402,7 +402,7 @@ fn algebra_sweep() {
     for fail_at in 0..2usize {
         let (n, m, p) = (8usize, 2usize, 2usize);
         let pr = LevMarProblemBuilder::new(Flaky { inner: model(n, m, p), fail_at }).observations(data(n)).build().unwrap();
-        if pr.jacobian().is_some() { f.report("C09 C03", "jacobian() is Some although eval_partial_deriv reported an error", format!("for the derivative with index {} of 2", fail_at)); }
+        if pr.jacobian().is_some() { f.report("C09 C03 C10", "jacobian() is Some although eval_partial_deriv reported an error (a column of the returned matrix is not a computed value)", format!("for the derivative with index {} of 2", fail_at)); }
     }
     // C18 (threshold): a negative threshold acts like its absolute value (tiny column truncated as with +1e-3)
     {
